@@ -167,6 +167,9 @@ var userErrs = func() []*UserErr {
 	return r
 }()
 
+// The error kinds (count / type / execution / non-boolean condition / unbound variable) are recognised by the
+// text the library's OWN error constructors produce on the current tree, probed at start-up, so that rewording a
+// message is not mistaken for a change of behaviour; the literal patterns below are the fall-back when a probe fails.
 var (
 	reCount   = regexp.MustCompile(`^unexpected params count, operator: (.*), expected: -?\d+, got: -?\d+$`)
 	reType    = regexp.MustCompile(`(?s)^unexpected param type, operator: (.*?), expected: `)
@@ -174,6 +177,84 @@ var (
 	reCond    = regexp.MustCompile(`(?s)^condition node returns a non bool result`)
 	reUnbound = regexp.MustCompile(`(?s)^variableKey not exist (.*)$`)
 )
+
+func commonPrefix(a, b string) string {
+	n := 0
+	for n < len(a) && n < len(b) && a[n] == b[n] {
+		n++
+	}
+	return a[:n]
+}
+
+func calibrateErrors() {
+	defer func() { recover() }()
+	const m1, m2 = "\x01OPNAME\x01", "\x02DETAIL\x02"
+	if m := eval.ParamsCountError(m1, 7101, 9302).Error(); strings.Count(m, m1) == 1 {
+		i := strings.Index(m, m1)
+		post := regexp.QuoteMeta(m[i+len(m1):])
+		post = strings.Replace(strings.Replace(post, "7101", `-?\d+`, 1), "9302", `-?\d+`, 1)
+		if re, err := regexp.Compile(`(?s)^` + regexp.QuoteMeta(m[:i]) + `(.*)` + post + `$`); err == nil {
+			reCount = re
+		}
+	}
+	if m := eval.ParamTypeError(m1, m2, int64(5)).Error(); strings.Count(m, m1) == 1 && strings.Count(m, m2) == 1 {
+		i, j := strings.Index(m, m1), strings.Index(m, m2)
+		if i < j && j > i+len(m1) {
+			if re, err := regexp.Compile(`(?s)^` + regexp.QuoteMeta(m[:i]) + `(.*?)` + regexp.QuoteMeta(m[i+len(m1):j])); err == nil {
+				reType = re
+			}
+		}
+	}
+	if m := eval.OpExecError(m1, errors.New(m2)).Error(); strings.Count(m, m1) == 1 && strings.Count(m, m2) == 1 {
+		i, j := strings.Index(m, m1), strings.Index(m, m2)
+		if i < j && j > i+len(m1) {
+			if re, err := regexp.Compile(`(?s)^` + regexp.QuoteMeta(m[:i]) + `(.*?)` + regexp.QuoteMeta(m[i+len(m1):j])); err == nil {
+				reExec = re
+			}
+		}
+	}
+	if _, err := (eval.MapVarFetcher{}).Get(0, m1); err != nil {
+		if m := err.Error(); strings.Count(m, m1) == 1 && strings.HasSuffix(m, m1) && len(m) > len(m1)+4 {
+			if re, err := regexp.Compile(`(?s)^` + regexp.QuoteMeta(m[:len(m)-len(m1)]) + `(.*)$`); err == nil {
+				reUnbound = re
+			}
+		}
+	}
+	// the operand limit: 128 and 129 operands
+	wide := func(n int) string {
+		conf := eval.NewConfig(eval.Optimizations(false))
+		_, err := eval.Compile(conf, "(and"+strings.Repeat(" true", n)+")")
+		if err == nil {
+			return ""
+		}
+		return err.Error()
+	}
+	if a, b := wide(128), wide(129); a != "" && b != "" && a != b {
+		cp := strings.TrimRight(commonPrefix(a, b), "0123456789[( ")
+		if len(cp) >= 12 && !strings.Contains(cp, "32767") {
+			operandLimitPrefix = cp
+		}
+	}
+	// a condition that is not a boolean: two probes, the common prefix of the two messages
+	probe := func(src string) string {
+		conf := eval.NewConfig(eval.Optimizations(false))
+		e, err := eval.Compile(conf, src)
+		if err != nil {
+			return ""
+		}
+		_, err = e.Eval(eval.NewCtxFromVars(conf, map[string]interface{}{}))
+		if err == nil {
+			return ""
+		}
+		return err.Error()
+	}
+	a, b := probe("(if (+ 1 1) 1 2)"), probe("(if (+ 1 2) 1 2)")
+	if cp := commonPrefix(a, b); a != "" && b != "" && a != b && len(cp) >= 12 && !reCount.MatchString(a) && !reType.MatchString(a) && !reExec.MatchString(a) {
+		if re, err := regexp.Compile(`(?s)^` + regexp.QuoteMeta(cp)); err == nil {
+			reCond = re
+		}
+	}
+}
 
 func coqErr(err error) string {
 	var ue *UserErr
@@ -411,6 +492,52 @@ func tail(s string, n int) string {
 }
 
 // ---------- evidence ----------
+
+// ---------- hang watchdog ----------
+// Every call into the library that the properties require to return (Compile, Eval, TryEval, Dump, the operators)
+// is made through guarded(); if one call does not return within wdLimit the run ends with a violation whose replay
+// is the case that was being evaluated (a spinning goroutine cannot be stopped, so the process exits).
+var (
+	wdMu    sync.Mutex
+	wdStart time.Time
+	wdDesc  interface{}
+	wdLimit = 30 * time.Second
+)
+
+func guarded(desc interface{}, f func()) {
+	wdMu.Lock()
+	wdStart, wdDesc = time.Now(), desc
+	wdMu.Unlock()
+	defer func() {
+		wdMu.Lock()
+		wdStart = time.Time{}
+		wdMu.Unlock()
+	}()
+	f()
+}
+
+func startWatchdog(prop, tier string, seed int64, begun time.Time) {
+	go func() {
+		for {
+			time.Sleep(500 * time.Millisecond)
+			wdMu.Lock()
+			s, d := wdStart, wdDesc
+			wdMu.Unlock()
+			if s.IsZero() || time.Since(s) < wdLimit {
+				continue
+			}
+			what := fmt.Sprintf("a call into the library did not return within %v (it is still running): the property requires a result or an error", wdLimit)
+			path := filepath.Join(buildDir, "replay", prop+"-hang.json")
+			writeJSON(path, map[string]interface{}{"property": prop, "what": what, "signature": "hang", "detail": d, "seed": seed, "tier": tier})
+			writeJSON(filepath.Join(verifDir, "evidence", prop+".json"), Evidence{PropertyID: prop, Tier: tier, Seed: seed, Level: "proof",
+				Coverage: map[string]interface{}{"obligations": 0, "discharged": 0, "evaluations": 0, "distinct_nontrivial": 0,
+					"rule": "run aborted: " + what, "samples": []interface{}{d}},
+				WallS: time.Since(begun).Seconds(), Violations: 1})
+			fmt.Printf("VIOLATION property=%s replay=%s\n", prop, path)
+			os.Exit(1)
+		}
+	}()
+}
 
 type Evidence struct {
 	PropertyID  string                 `json:"property_id"`
